@@ -200,17 +200,17 @@ theorem nxDecTTL_rt (c : Nat) (hc : c < 65536) :
     simp only [Res.bind_ok, Slice.u16From_eq, e10, Res.ofOption, Res.pure_eq, u16_n16 c hc]
     rfl
 
-/-- NXActionResubmit (Length 16): MarshalBinary stores TableID = OFPTT_ALL (255) in the RECEIVER instead of writing it to the
-    buffer, the decoder never sets TableID — the value left behind by the encoder has TableID 255, the decoded one 0 -/
-theorem nxResubmit_decode (ip t : Nat) (hip : ip < 65536) :
+/-- NXActionResubmit (Length 16).  TableID is OFPTT_ALL (255) in every value the constructor builds; MarshalBinary (re)stores
+    255 in the receiver, UnmarshalBinary sets 255: whatever TableID `t` the value held, the encoder leaves `v 255` behind
+    and the decoder returns `v 255` -/
+theorem nxResubmit_rt (ip t : Nat) (hip : ip < 65536) :
     let v := V.obj "NXActionResubmit" [nxHdr 16 Gen.openflow13.NXAST_RESUBMIT, .num ip, .num t, .bytes (zeros 3)]
     let v1 := V.obj "NXActionResubmit" [nxHdr 16 Gen.openflow13.NXAST_RESUBMIT, .num ip, .num Gen.openflow13.OFPTT_ALL, .bytes (zeros 3)]
-    let v' := V.obj "NXActionResubmit" [nxHdr 16 Gen.openflow13.NXAST_RESUBMIT, .num ip, .num 0, .bytes (zeros 3)]
     let bs := nxHdrBytes 16 Gen.openflow13.NXAST_RESUBMIT ++ be16 (n16 ip) ++ zeros 4
-    Action.marshalM v = .ok (bs, v1) ∧
-    ∀ (data : Slice) (tail : Bytes) (k : Nat), data.WF → data.bytes = bs ++ tail → DecodeAction (k + 1) data = .ok v' := by
-  intro v v1 v' bs
-  refine ⟨?_, ?_⟩
+    Action.marshalM v = .ok (bs, v1) ∧ Action.lenM v1 = .ok (16, v1) ∧
+    ∀ (data : Slice) (tail : Bytes) (k : Nat), data.WF → data.bytes = bs ++ tail → DecodeAction (k + 1) data = .ok v1 := by
+  intro v v1 bs
+  refine ⟨?_, rfl, ?_⟩
   · rw [action_marshal_leaf v (by simp [v, V.kind])]
     simp only [v, Action.marshalLeaf, V.kind, NXActionResubmit.marshalM, nxHdr_length, nxHdr_bytes, Res.bind_ok, h16]
     have hp : piecesLen [pCopy (nxHdrBytes 16 Gen.openflow13.NXAST_RESUBMIT), pU16 ip] = 12 := rfl
